@@ -84,7 +84,9 @@ func fixtures() map[string][]fixture {
 		"ReduceMin":  {{attrs: []*onnx.AttributeProto{aIs("axes", 0), aI("keepdims", 0)}, inputs: func() []tensor.Tensor { return []tensor.Tensor{fxF32(2, 3)} }}},
 		"Softmax":    un(fxF32),
 		"LogSoftmax": un(fxF32),
-		"Cast":       {{attrs: []*onnx.AttributeProto{aI("to", 7)}, inputs: func() []tensor.Tensor { return []tensor.Tensor{fxF32(2, 3)} }}},
+		"Cast": {{attrs: []*onnx.AttributeProto{aI("to", 7)}, inputs: func() []tensor.Tensor { return []tensor.Tensor{fxF32(2, 3)} }},
+			{attrs: []*onnx.AttributeProto{aI("to", 1)}, inputs: func() []tensor.Tensor { return []tensor.Tensor{fxF32(2, 3)} }},
+			{attrs: []*onnx.AttributeProto{aI("to", 11)}, inputs: func() []tensor.Tensor { return []tensor.Tensor{fxI64(2, -1)} }}},
 		"Concat": {{attrs: []*onnx.AttributeProto{aI("axis", 0)}, inputs: func() []tensor.Tensor { return []tensor.Tensor{fxF32(2, 3), fxF32(1, 3)} }},
 			{attrs: []*onnx.AttributeProto{aI("axis", 0)}, inputs: func() []tensor.Tensor { return []tensor.Tensor{fxF32(2, 3)} }}},
 		"Constant":        {{attrs: []*onnx.AttributeProto{aFs("value_floats", 1, 2)}, inputs: func() []tensor.Tensor { return nil }}},
